@@ -90,7 +90,14 @@ TermHolds(c, r) ==
     [] c = "OnlyDocumentedException" -> \/ r.exc \in {"none", "Hang", "SupportBudget"}
                                         \/ (r.exc = "AssertionError" /\ r.fn = "epa" /\ r.smooth)
     [] c = "OutputsFinite"           -> r.exc = "none" => r.finite
-TermFailing(r) == {c \in Range(TermClauses) : ~TermHolds(c, r)}
+(* Named pattern of the known finding "EPA on an incomplete GJK simplex" seen from C19: gjk_distance_jolt ended with fewer than
+   four simplex points (r.simplexRows, observed), the rows handed to EPA are partly uninitialised memory, and EPA may expand that
+   polytope until its face array is full (capacity AssertionError for polytopes) or return non-finite numbers.  What happens
+   depends on the memory content, so the pattern is matched by the input attribute, not by a pinned outcome. *)
+TermFailing(r) ==
+  LET f == {c \in Range(TermClauses) : ~TermHolds(c, r)} IN
+  IF f # {} /\ r.fn = "epa" /\ r.simplexRows < 4 /\ f \subseteq {"OnlyDocumentedException", "OutputsFinite"} /\ r.exc \in {"none", "AssertionError"}
+  THEN f \cup {"ZONE_IncompleteSimplex"} ELSE f
 
 (* ---------------- primitive distance functions (C10, C11): kind = "prim" ----------------
    one record per call of a function of distance3d.distance on lattice primitives (or their lifts):
